@@ -54,7 +54,7 @@ P = {
          "Exploration with every wrapper's real inline assembly executed and trapped: ~320k (prior content, argument, operation) cases per quick run over Cr0/2/3/4, Dr0-3/6/7, XCr0, Msr, Efer, Fs/Gs/KernelGs base, Star, LStar, SFMask, UCet, SCet, Pat, ApicBase, segment registers and bases, load_tss, mxcsr, rflags; the oracle is an emulated register-file model with register numbers/MSR indices/modelled-bit masks typed in from the manuals.",
          'Trusts the instruction decoder and the per-wrapper sound prior domains listed in the evidence assumptions; segment loads only with selectors that fault under Linux; XCR0/RFLAGS.IF via hooks H4/H2.', "3/C16"),
  "C17": (True, "generated nested-closure programs with emulated IF (trapped cli/sti/hlt + RFLAGS overlay hook)",
-         'Exploration in both build profiles: 40k generated nested-closure programs per profile run through the real without_interrupts with cli/sti/hlt trapped and IF emulated (hook H2 makes the IF=0 branch reachable); both initial IF states of enable_and_hlt enumerated, adjacency of sti and hlt checked on the trapped instruction addresses; the closure's memory effects are sampled by the trap handler at the trapped cli/sti and must lie inside the interrupt-free window.',
+         'Exploration in both build profiles: 40k generated nested-closure programs per profile run through the real without_interrupts with cli/sti/hlt trapped and IF emulated (hook H2 makes the IF=0 branch reachable); both initial IF states of enable_and_hlt enumerated, adjacency of sti and hlt checked on the trapped instruction addresses; the memory effects of the closure are sampled by the trap handler at the trapped cli/sti and must lie inside the interrupt-free window.',
          "'No interrupt window' is decided as adjacency in the instruction stream; interrupts are not injected.", "3/C17"),
  "C18": (True, "PBT with trapped in/out: opcode/DX/AL-AX-EAX vs device model",
          'Exploration in both build profiles (120k accesses per profile over all widths, access kinds, edge-biased ports, values and device replies); the thorough tier enumerates all 65536 ports x 3 widths x 3 access kinds.',
